@@ -115,6 +115,11 @@ mod msgq {
             self.len_bytes += msg.len_bytes();
             self.queue.push_back(msg);
         }
+
+        pub(crate) fn push_front(&mut self, msg: UserRxMessage) {
+            self.len_bytes += msg.len_bytes();
+            self.queue.push_front(msg);
+        }
     }
 
     #[cfg(ikatson_librqbit_utp_verif)]
@@ -196,6 +201,12 @@ impl UtpStreamReadHalf {
                         self.current = Some(BeingRead { payload, offset: 0 })
                     }
                     UserRxMessage::Error(msg) => {
+                        if written > 0 {
+                            // Some bytes were already copied to the caller's buffer, report them
+                            // first. The error will be returned on the next read.
+                            g.queue.push_front(UserRxMessage::Error(msg));
+                            break;
+                        }
                         return Poll::Ready(Err(std::io::Error::other(msg)));
                     }
                 }
